@@ -15,6 +15,7 @@ from __future__ import annotations
 from ..core import short_hash
 from ..env import _args
 from .talbase import TalCheck
+from .talcommon import run_model
 
 
 def _argl(a) -> list:
@@ -61,7 +62,15 @@ class C13(TalCheck):
                                      f"({_args(rr[1])}), expected {mr[0]}"
                                      f"({_args(mr[1])})"})
         elif r["out"] != m["out"]:
-            vs.append({"kind": "output", "sig": "output",
+            sig = "output"
+            if m.get("guard_relevant"):
+                # known finding: with a tal:omit-tag *expression* on the
+                # element the fallback never carries the element's tags,
+                # not even when the guard had come out false
+                alt = run_model(tmpl, plan, hcfg, guard_tags=False)
+                if alt["out"] == r["out"]:
+                    sig = "fallback-tags-dropped-with-false-omit-guard"
+            vs.append({"kind": "output", "sig": sig,
                        "detail": f"rendered {r['out']!r}\n expected "
                                  f"{m['out']!r}"})
         # what the fallback expression read from ``error``
